@@ -578,6 +578,7 @@ func step(line string, label string) (out string, idx int) {
 		var uid ptttype.UID
 		rid := ID{}
 		ridSet := "~"
+		withDump = false // lookups do not change the state; the structure oracle still walks the segment
 		res = call(func() string {
 			// rightID starts as a sentinel so that "copied or not" is visible
 			for i := range rid {
@@ -618,6 +619,7 @@ func step(line string, label string) (out string, idx int) {
 		if !ok {
 			break
 		}
+		withDump = false
 		res = call(func() string {
 			p, err := cache.GetUserID(ptttype.UID(u))
 			if err != nil {
@@ -743,7 +745,7 @@ func step(line string, label string) (out string, idx int) {
 	if post != nil {
 		post(idx)
 	}
-	if !tainted && withDump {
+	if !tainted && op != "reset" && op != "file" && op != "attach" {
 		if judgeStructure(idx) && (op == "add" || op == "set" || op == "remove" || op == "load") {
 			judgeAllLookups(idx)
 		}
